@@ -361,7 +361,25 @@ def make_callback(cb):
             f = other
         else:
             f = core_pos
+    if cb.get("returns") is not None:
+        f = _returning(f, cb["returns"])
     return f, state
+
+
+RETURNS = {"True": True, "np_true": np.bool_(True), "one": 1, "str": "stop",
+           "list": [1], "False": False, "array": np.array([1.0])}
+
+
+def _returning(f, what):
+    """Same callable (same signature as seen by inspect.signature), but it
+    returns a value after recording the call."""
+    val = RETURNS[what]
+
+    @functools.wraps(f)
+    def g(*a, **k):
+        f(*a, **k)
+        return val
+    return g
 
 
 # ----------------------------------------------------------------------- build
